@@ -5,8 +5,9 @@ from props import forest_common as fc
 THEOREMS = ['C05_sum_visitor_is_max', 'C05_sum_visitor_packed', 'C05_resolve_in_derivs', 'C05_resolve_lex_optimal',
             'C05_sort_key_meaning', 'C05_optimal', 'C05_optimal_uniform', 'C05_empty_precedence', 'C05_invert',
             'C05_none', 'C05_deterministic', 'C05_example', 'C05_empty_precedence_bites', 'C05_optimal_graph',
-            'C05_optimal_graph_walk', 'C05_optimal_graph_example', 'C05_sum_walk_eq_recursive']
-GEN_DEPS = ['ForestSortKey']
+            'C05_optimal_graph_walk', 'C05_optimal_graph_example', 'C05_sum_walk_eq_recursive',
+            'C05_compiled_priority_is_declared']
+GEN_DEPS = ['ForestSortKey', 'RulePriority']
 RULE = ('random acyclic ambiguous grammars (2-4 non-terminals, 1-3 alternatives, signed rule priorities `r.2:`, terminal '
         'priorities `A.3:`, colliding/overlapping string terminals, nullable alternatives, and in 60% of the grammars `x?`, '
         '`[x]` maybe-placeholders and groups `(x | y)` inside prioritised rules - several Rule/RuleOptions objects per definition), every string over '
